@@ -85,19 +85,45 @@ def fmtOut : Out → String
   | .iter l => "[" ++ " ".intercalate (l.map fun p =>
       toString p.1 ++ ":" ++ (match p.2 with | some v => toString v | none => "nil")) ++ "]"
 
+/-! ### Derived ops: a query result is a value
+
+`hold <filter>` runs the query and keeps the answer, `held` prints the kept answer again after whatever
+happened in between, `qkill h <filter>` walks a fresh result with `Each` and annihilates the entity
+named `h` at the first visit, then prints what the walk visited.  In the model (and the spec) a query
+result is an immutable value, so these are compositions of `query` and `kill`: the kept / walked result
+is exactly the answer at the moment of the query.  The real `Result` must behave the same way (it
+copies the matching archetypes' entity lists); a result that aliases the world's tables changes under a
+later `Annihilate` (swap-remove) and is caught here. -/
+
+def derived {σ : Type} (step : σ → Op → σ × Out) (st : σ × String) (toks : List String) : (σ × String) × String :=
+  match toks with
+  | "hold" :: f =>
+    match parseFilter f with
+    | some f => let r := step st.1 (.query f); ((r.1, fmtOut r.2), fmtOut r.2)
+    | none => (st, "bad-op")
+  | ["held"] => (st, st.2)
+  | "qkill" :: h :: f =>
+    match h.toNat?, parseFilter f with
+    | some h, some f =>
+      let q := step st.1 (.query f)
+      let k := step q.1 (.kill h)
+      match k.2 with
+      | .ok => ((k.1, st.2), fmtOut q.2)
+      | o => ((k.1, st.2), fmtOut o)
+    | _, _ => (st, "bad-op")
+  | _ => match parseOp toks with
+    | some op => let r := step st.1 op; ((r.1, st.2), fmtOut r.2)
+    | none => (st, "bad-op")
+
 def model : Suite where
-  σ := St
-  init := St.new
-  step s toks := match parseOp toks with
-    | some op => let r := step s op; (r.1, fmtOut r.2)
-    | none => (s, "bad-op")
+  σ := St × String
+  init := (St.new, "0 []")
+  step := derived MV.Model.ECS.step
 
 def spec : Suite where
-  σ := MV.Spec.ECS.St
-  init := MV.Spec.ECS.St.new
-  step s toks := match parseOp toks with
-    | some op => let r := MV.Spec.ECS.step s op; (r.1, fmtOut r.2)
-    | none => (s, "bad-op")
+  σ := MV.Spec.ECS.St × String
+  init := (MV.Spec.ECS.St.new, "0 []")
+  step := derived MV.Spec.ECS.step
 
 /-! judge: `spawn … => id.gen` / `spawnn … => [id.gen …]` must hand out handles never seen before -/
 
